@@ -346,6 +346,20 @@ def dispatchC12 : Dispatch := fun W op args =>
         f32Hex b.1 ++ ":" ++ f32Hex b.2 ++ enclosureMark b.1 b.2 v 1
     pure ("ok " ++ ",".intercalate ((List.range (hi - lo)).map fun i => item (lo + i)))
   | "tab.log2", [_] => pure ("ok " ++ natToHex LOG2_TAB_PACKED)
+  -- ---- no_std build of the libraries (table estimator): the case generator runs the harness built
+  --      without the `std` feature and passes its answer as `payload`; the std harness echoes it
+  | "ns", _payload :: "p.log2b" :: [ty, a] => do
+    let _ ← primBits ty; let a ← parseNat a
+    pure ("ok " ++ log2bOut (log2BoundsPrimNoStd a) a 1)
+  | "ns", _payload :: "p.log2brange" :: [ty, lo, hi] => do
+    let _ ← primBits ty; let lo ← parseDecNat lo; let hi ← parseDecNat hi
+    let item (v : Nat) : String :=
+      let b := log2BoundsPrimNoStd v
+      f32Hex b.1 ++ ":" ++ f32Hex b.2 ++ enclosureMark b.1 b.2 v 1
+    pure ("ok " ++ ",".intercalate ((List.range (hi - lo)).map fun i => item (lo + i)))
+  | "ns", _payload :: "u.log2b" :: [a] => do
+    let a ← parseNat a
+    pure ("ok " ++ log2bOut (log2BoundsNatNoStd W a) a 1)
   | "p.gcdrow", [ty, a, lo, hi] => do
     let _ ← primBits ty; let a ← parseDecNat a; let lo ← parseDecNat lo; let hi ← parseDecNat hi
     let item (v : Nat) : String :=
